@@ -225,6 +225,24 @@ def run(ctx):
                 stack.append((e[3], root))
     ctx.sample({"orientation_edge": [e[1], str(e[2])], "rotation_rad": rot_of(c)})
 
+    # ---------------- whole-number angles (radians written as integers): the number type is not part of the angle
+    from holopy.scattering import Spheroid as _Spheroid, Cylinder as _Cylinder
+    d_int = detector_points(theta=np.array([0.2, 0.7, 1.0]), phi=np.array([0.3, 2.0, 4.4]), r=3000.0 / K)
+    for rot_i in ((0, 1, 7), (0, -2, 3), (3, 5, -4), (0, 2, 1), (np.int64(1), np.int64(4), np.int64(9))):
+        for mk_ in (lambda rot: _Spheroid(n=1.59, r=(0.3, 0.5), rotation=rot, center=(0, 0, 0)),
+                    lambda rot: _Cylinder(n=1.59, d=0.5, h=0.8, rotation=rot, center=(0, 0, 0))):
+            ctx.case(("integer_angles", tuple(int(v) for v in rot_i), mk_(rot_i).__class__.__name__), nontrivial=True)
+            try:
+                s_i = calc_scat_matrix(d_int, mk_(tuple(rot_i)), theory=Tmatrix(), medium_index=NMED, illum_wavelen=WL).values
+                s_f = calc_scat_matrix(d_int, mk_(tuple(float(v) for v in rot_i)), theory=Tmatrix(), medium_index=NMED, illum_wavelen=WL).values
+            except Exception as e:
+                ctx.violation("relation/integer_angles/exception", {"rotation": [int(v) for v in rot_i], "exc": repr(e)[:200]})
+                continue
+            dd = float(np.max(np.abs(s_i - s_f))) / float(np.max(np.abs(s_f)))
+            if not dd <= 1e-9:
+                ctx.violation("relation/integer_angles", {"rotation": [int(v) for v in rot_i], "defect": dd})
+            else:
+                ctx.trace_ok()
     # ---------------- (3) sphere limit and mirror symmetry -----------------------------------------
     n_sph = 6 if quick else 40
     for t in range(n_sph):
